@@ -831,7 +831,7 @@ def run(ctx):
         if rel(marker_heights(rec, nil, pop)) != rel([int(l[1:]) for l in ml if l.startswith("#")]):
             ctx.violation("iteration state left on the VM stack", input=text, wire=w)
         return
-    progs = directed(rng, quick) + [g_program(rng) for _ in range(350 if quick else 4000)]
+    progs = directed(rng, quick) + [g_program(rng) for _ in range(350 if quick else 3000)]
     for p in progs:
         p.setdefault("dir", rng.random() < 0.5)
         p["facts"] = facts(p["body"])
